@@ -1,7 +1,144 @@
 import H5V.Proto
-/- engine `tendril` (stub) -/
+import H5V.Model.Tendril
+/- engine `tendril`: case = `<format>` `<atomicity>` `<op;op;…>` over a pool of 4 slots.
+   formats: bytes ascii latin1 utf8 wtf8; atomicity: N | A (ignored by the model).
+   ops (indices / counts decimal, bytes / code points hex):
+   `new i` `from i <hex>` `slice i <hex>` `push i <hex>` `pushs i <hex>` `pushc i <cp>` `pusht i j`
+   `popf i n` `popb i n` `tpopf i n` `tpopb i n` `sub i j off len` `tsub i j off len` `clone i j`
+   `clear i` `drop i` `popc i` `popr i j k` `send i` `reserve i n` `withcap i n` `setb i k <v>`
+   output per op: `<result>|<alloc events>|<slot0>|<slot1>|<slot2>|<slot3>`, then
+   `end|<alloc events of dropping the pool>|live=<n>` -/
 namespace H5V.Model.TendrilDriver
+open H5V.Proto H5V.Model.Tendril
 
-def runCase (_fields : List String) : String := "unimplemented"
+def formatOf : String → Option Format
+  | "bytes" => some Format.bytes
+  | "ascii" => some Format.ascii
+  | "latin1" => some Format.latin1
+  | "utf8" => some Format.utf8
+  | "wtf8" => some Format.wtf8
+  | _ => none
+
+def showEvents (evs : List Event) : String :=
+  let parts := evs.filterMap (fun e => match e with
+    | .alloc _ c => some ("A" ++ toString c)
+    | .free _ c => some ("F" ++ toString c)
+    | _ => none)
+  if parts.isEmpty then "-" else " ".intercalate parts
+
+/-- events emitted between two heaps, chronological -/
+def newEvents (h h' : Heap) : List Event :=
+  (h'.trace.take (h'.trace.length - h.trace.length)).reverse
+
+def showSlot (st : St) (k : Nat) : String :=
+  match st.pool[k]? with
+  | some (some t) =>
+    let bytes := showBytes (abs st.heap t)
+    match t with
+    | .inline _ => "i:" ++ bytes
+    | .owned .. => "o:" ++ bytes
+    | .shared id _ _ =>
+      -- group = first slot viewing the same buffer (`is_shared_with`)
+      let g := ((List.range st.pool.length).find? (fun j =>
+        match (st.pool[j]? : Option (Option T)) with
+        | some (some (T.shared id' _ _)) => id' == id
+        | _ => false)).getD k
+      "s" ++ toString g ++ ":" ++ bytes
+  | _ => "-"
+
+def showPool (st : St) : String :=
+  "|".intercalate ((List.range st.pool.length).map (showSlot st))
+
+def showOut : Out → String
+  | .ok => "ok" | .err => "err" | .oob => "oob" | .inv => "inv" | .panic => "panic"
+  | .badop => "bad-op"
+  | .ch none => "c=-" | .ch (some c) => "c=" ++ toHex c
+  | .run none => "r=-" | .run (some c) => "r=" ++ toString c
+  | .ub s => "UB " ++ s
+
+def hexArg (rest : List String) : Option (List UInt8) :=
+  match parseNums? (" ".intercalate rest) with
+  | some ns => if ns.all (· < 256) then some (ns.map UInt8.ofNat) else none
+  | none => none
+
+def nat? (s : String) : Option Nat := s.toNat?
+
+inductive Parsed where
+  | op (o : Op)
+  | opInv (o : Op)      -- `slice` / `pushs`: `err` of the validating twin is printed as `inv`
+  | bad
+
+def parseOp (F : Format) (s : String) : Parsed :=
+  let sliceFmt := F.name == "bytes" || F.name == "utf8"
+  match s.trimAscii.toString.splitOn " " with
+  | ["new", i] => match nat? i with | some i => .op (.new i) | _ => .bad
+  | "from" :: i :: rest => match nat? i, hexArg rest with
+    | some i, some bs => .op (.fromBytes i bs) | _, _ => .bad
+  | "slice" :: i :: rest => match nat? i, hexArg rest with
+    | some i, some bs => if sliceFmt then .opInv (.fromBytes i bs) else .bad | _, _ => .bad
+  | "push" :: i :: rest => match nat? i, hexArg rest with
+    | some i, some bs => .op (.pushBytes i bs) | _, _ => .bad
+  | "pushs" :: i :: rest => match nat? i, hexArg rest with
+    | some i, some bs => if sliceFmt then .opInv (.pushBytes i bs) else .bad | _, _ => .bad
+  | ["pushc", i, c] => match nat? i, parseHex? c with
+    | some i, some c => if (F.charIndices []).isSome then .op (.pushChar i c) else .bad | _, _ => .bad
+  | ["pusht", i, j] => match nat? i, nat? j with
+    | some i, some j => .op (.pushTendril i j) | _, _ => .bad
+  | ["popf", i, n] => match nat? i, nat? n with
+    | some i, some n => .op (.popFront i n) | _, _ => .bad
+  | ["popb", i, n] => match nat? i, nat? n with
+    | some i, some n => .op (.popBack i n) | _, _ => .bad
+  | ["tpopf", i, n] => match nat? i, nat? n with
+    | some i, some n => .op (.tryPopFront i n) | _, _ => .bad
+  | ["tpopb", i, n] => match nat? i, nat? n with
+    | some i, some n => .op (.tryPopBack i n) | _, _ => .bad
+  | ["sub", i, j, o, l] => match nat? i, nat? j, nat? o, nat? l with
+    | some i, some j, some o, some l => .op (.subtendril i j o l) | _, _, _, _ => .bad
+  | ["tsub", i, j, o, l] => match nat? i, nat? j, nat? o, nat? l with
+    | some i, some j, some o, some l => .op (.trySubtendril i j o l) | _, _, _, _ => .bad
+  | ["clone", i, j] => match nat? i, nat? j with
+    | some i, some j => .op (.clone i j) | _, _ => .bad
+  | ["clear", i] => match nat? i with | some i => .op (.clear i) | _ => .bad
+  | ["drop", i] => match nat? i with | some i => .op (.drop i) | _ => .bad
+  | ["popc", i] => match nat? i with | some i => .op (.popFrontChar i) | _ => .bad
+  | ["popr", i, j, k] => match nat? i, nat? j, nat? k with
+    | some i, some j, some k => if k < 3 then .op (.popFrontCharRun i j k) else .bad | _, _, _ => .bad
+  | ["send", i] => match nat? i with | some i => .op (.sendRoundTrip i) | _ => .bad
+  | ["reserve", i, n] => match nat? i, nat? n with
+    | some i, some n => .op (.reserve i n) | _, _ => .bad
+  | ["withcap", i, n] => match nat? i, nat? n with
+    | some i, some n => .op (.withCapacity i n) | _, _ => .bad
+  | ["setb", i, k, v] => match nat? i, nat? k, parseHex? v with
+    | some i, some k, some v =>
+      if F.name == "bytes" && v < 256 then .op (.setByte i k (UInt8.ofNat v)) else .bad
+    | _, _, _ => .bad
+  | _ => .bad
+
+def runOp (F : Format) (st : St) (s : String) : St × String :=
+  let (st', out) := match parseOp F s with
+    | .bad => (st, Out.badop)
+    | .op o => step F st o
+    | .opInv o => match step F st o with
+      | (st', .err) => (st', .inv)
+      | r => r
+  (st', showOut out ++ "|" ++ showEvents (newEvents st.heap st'.heap) ++ "|" ++ showPool st')
+
+def runCase (fields : List String) : String :=
+  match fields with
+  | [fmt, atom, ops] =>
+    match formatOf fmt with
+    | none => "bad-case"
+    | some F =>
+      if atom != "N" && atom != "A" then "bad-case" else
+      let (st, outs) := (ops.splitOn ";").foldl (fun (acc : St × List String) op =>
+        let (st', o) := runOp F acc.1 op
+        (st', o :: acc.2)) (St.init 4, [])
+      let fin := match dropAll st with
+        | .ok st' => "end|" ++ showEvents (newEvents st.heap st'.heap) ++ "|live="
+                      ++ toString st'.heap.liveCount
+        | .error (.ub s) => "end|UB " ++ s
+        | .error (.panic s) => "end|panic " ++ s
+      ";".intercalate (outs.reverse ++ [fin])
+  | _ => "bad-case"
 
 end H5V.Model.TendrilDriver
